@@ -1,6 +1,6 @@
 (* The full dump of a boot information (domain `mbi`): every typed getter and
    every accessor of every tag kind, iterators run to exhaustion. *)
-Require Import Bytes Outcome Render Layout Common TagType Mbi MbiTags Strings MbiAccess Debug RunCommon RunMbi.
+Require Import Bytes Outcome Render Layout Common TagType UserTypes Mbi MbiTags Strings MbiAccess Debug RunCommon RunMbi.
 From Coq Require Import String.
 Open Scope string_scope.
 Open Scope N_scope.
@@ -260,3 +260,22 @@ Definition run_elfname (p : profile) (bs : list byte) (eb : N) (ebs : list byte)
 (* pstr <bytes>: the public parse_slice_as_string on an arbitrary slice *)
 Definition run_pstr (bs : list byte) : list string :=
   [ line "pstr" (sRes (fun n => sView 0 n ++ " " ++ sBytes (slice bs 0 n)) (parse_str bs)) ].
+
+(* gettag <sel> <region>: BootInformation::get_tag::<T>() with a harness-defined T
+   sel 0: sized, two u32 words, ID Custom(4096); 1: DST with a u32 tail, ID Custom(4097); 2: header-only sized type
+   claiming the command-line ID *)
+Definition gettag_sel (sel : N) : N * sdesc :=
+  match sel with 0 => (4096, user_sized 2) | 1 => (4097, user_dst 0 4 4) | _ => (1, user_sized 0) end.
+Definition run_gettag (p : profile) (sel : N) (bs : list byte) : list string :=
+  let m := {| m_base := 0; m_bytes := bs |} in
+  let '(typ, d) := gettag_sel sel in
+  let '(l, lines) := run_mbi_core p m in
+  match l with
+  | Val r =>
+      (lines ++ [line "get_user" (match get_tag_user p typ (user_tdesc d) m r with
+                                  | Val None => "none"
+                                  | Val (Some t) => "some " ++ sView (t_off t) (sd_size_of_val d (t_meta t)) ++ " meta=" ++ sOpt sN (t_meta t)
+                                  | x => sRes (fun _ => "") x
+                                  end)])%list
+  | _ => lines
+  end.
